@@ -31,6 +31,7 @@ type FlowOpts struct {
 	BigPayload         int // permille of payloads in the KiB range
 	BreakW             int // weight of the environment action "break connection"
 	PartW              int // weight of the environment action "partition" (the connection goes silent)
+	LazyResend         bool // the broker postpones the retransmission of messages the application holds unacknowledged
 	Budget             int
 	SelectMode         uint32
 	StarveP            int // scheduler: permille per step of holding one goroutine back for a stretch
@@ -406,6 +407,7 @@ type Recv struct {
 	BigErr     error
 	NextInvoke int // step at which ReadSlices was invoked again (ownership taken); 0: not yet
 	Out        *OutMsg
+	AckWire    int // step at which the PUBACK/PUBREC for this return was written (0: not yet)
 }
 
 // BackoffRec is one wait on a ReadBackoff channel.
